@@ -128,22 +128,24 @@ Qed.
 
 (** a binary operation with a plain tensor of the SAME shape that is only known to agree on observed positions *)
 Lemma apply_same_shape_agree : forall op a a' vb vb',
-    wagree a a' -> weight a <> None ->
+    wagree a a' ->
     shape vb = shape (value a) -> shape vb' = shape vb ->
     (forall m, inr (shape vb) m -> observed a m -> at_ vb m = at_ vb' m) ->
     ragree wagree (apply_operation a (OT vb) op false) (apply_operation a' (OT vb') op false).
 Proof.
-  intros op a a' vb vb' H Hn Sb Sb' Hb. pose proof H as (W & W' & Hs & Hw & Hv).
+  intros op a a' vb vb' H Sb Sb' Hb. pose proof H as (W & W' & Hs & Hw & Hv).
   unfold apply_operation, tzip2. rewrite Sb', Sb, <- Hs, bshape_refl. cbn [shape].
   unfold wf in W, W'.
-  destruct (weight a) as [w|] eqn:E; [|congruence].
-  destruct (weight a') as [w'|] eqn:E'; [|contradiction].
-  destruct Hw as [Hws Hwv].
-  unfold expand_weight. rewrite <- Hws, W, shape_eqb_refl. cbn [bind].
-  unfold mk_weightedN. cbn [shape]. rewrite <- Hws, W, shape_eqb_refl.
-  simpl. unfold wagree, wf, observed; simpl. repeat split; auto.
-  - congruence.
-  - intros m Hm Ho. rewrite !bidx_id by assumption.
+  destruct (weight a) as [w|] eqn:E; destruct (weight a') as [w'|] eqn:E'; try contradiction.
+  - destruct Hw as [Hws Hwv].
+    unfold expand_weight. rewrite <- Hws, W, shape_eqb_refl. cbn [bind].
+    unfold mk_weightedN. cbn [shape]. rewrite <- Hws, W, shape_eqb_refl.
+    simpl. unfold wagree, wf, observed; simpl. repeat split; auto.
+    + congruence.
+    + intros m Hm Ho. rewrite !bidx_id by assumption.
+      rewrite Hv, Hb; auto; try (now rewrite Sb); unfold observed; now rewrite E.
+  - simpl. unfold wagree, wf, observed; simpl. repeat split; auto.
+    intros m Hm _. rewrite !bidx_id by assumption.
     rewrite Hv, Hb; auto; try (now rewrite Sb); unfold observed; now rewrite E.
 Qed.
 
@@ -178,42 +180,110 @@ Proof.
   - inversion H; subst; reflexivity.
 Qed.
 
-(** C06, noise (scalar rule) is FALSE of the code (finding F3): model^2 is summed over every entry of every
-    real visit, including entries where y is missing.  Witness: 2 individuals x 1 visit x 2 features, y[0,0,1]
-    missing; two model tensors that differ only at that unobserved entry give different variances
-    (25/3 against 0), and the first is not the residual mean square over observed entries (0). *)
-Theorem noise_scalar_refuted :
-  exists (y : wt) (model model' : tensor atom) (v v' r : atom),
-    wf y /\ shape model = shape (value y) /\ shape model' = shape model /\
-    (forall m, inr (shape model) m -> observed y m -> at_ model m = at_ model' m) /\
-    noise_var_scalar y model = Ok v /\ noise_var_scalar y model' = Ok v' /\
-    rss_over_observed y model = Ok r /\
-    atom_same v v' = false /\ atom_same v r = false /\ atom_same v' r = true.
+(** a binary operation with a plain tensor that broadcasts to the shape of [a] keeps the shape and the weights of [a] *)
+Lemma apply_plain_keeps : forall a vb op (rev : bool) r, wf a ->
+    bshape (if rev then shape vb else shape (value a)) (if rev then shape (value a) else shape vb)
+    = Some (shape (value a)) ->
+    apply_operation a (OT vb) op rev = Ok r ->
+    shape (value r) = shape (value a) /\ weight r = weight a.
 Proof.
-  exists (mkW w_values (Some (tmap to_bool_weight w_mask))), w_model_a, w_model_b.
-  eexists _, _, _.
-  split; [reflexivity|]. split; [reflexivity|]. split; [reflexivity|].
-  split.
-  { intros m Hm Ho. unfold inr in Hm. simpl in Hm.
-    destruct Hm as [Hm|[Hm|[Hm|[Hm|[]]]]]; subst m; try reflexivity.
-    exfalso. apply Ho. reflexivity. }
-  split; [vm_compute; reflexivity|]. split; [vm_compute; reflexivity|]. split; [vm_compute; reflexivity|].
-  vm_compute. repeat split.
+  intros a vb op rev r W B H. unfold apply_operation, tzip2 in H. unfold wf in W.
+  destruct rev; rewrite B in H; cbn [shape] in H;
+    (destruct (weight a) as [wa|] eqn:E;
+     [ unfold expand_weight in H; rewrite W, shape_eqb_refl in H; cbn [bind] in H;
+       unfold mk_weightedN in H; cbn [shape] in H; rewrite W, shape_eqb_refl in H
+     | ]; inversion H; subst; simpl; auto).
 Qed.
 
-(** C06, noise (diagonal rule), PARTIAL: the ingredients of the per-feature variance that involve y — y_L2_per_ft,
-    n_obs_per_ft and the statistic y_x_model on observed positions — do not change when y changes under the mask
-    or the model changes where y is not observed.  Missing for the full statement: the same invariance carried
-    through the last two dunder calls (-2 * y_x_model + model_x_model) and the final division. *)
-Theorem noise_diagonal_observed_only_partial : forall y y' model model',
-    wagree y y' -> weight y <> None ->
+Lemma tmap_teq : forall A B (f : A -> B) (a b : tensor A), teq a b -> teq (tmap f a) (tmap f b).
+Proof. intros A B f a b [Hs Hv]. split; simpl; [assumption|]. intros m Hm. now rewrite Hv. Qed.
+
+(** plain torch operations see equal tensors: same error or equal results *)
+Lemma tbin_teq : forall op a a' b b', teq a a' -> teq b b' -> ragree teq (tbin op a b) (tbin op a' b').
+Proof.
+  intros op a a' b b' [Sa Ha] [Sb Hb]. unfold tbin, tzip2. rewrite <- Sa, <- Sb.
+  destruct (bshape (shape a) (shape b)) as [s|] eqn:E; simpl; [|reflexivity].
+  destruct (bshape_expandable _ _ _ E) as [E1 E2].
+  split; [reflexivity|]. simpl. intros m Hm.
+  rewrite Ha, Hb; eauto using bidx_inr.
+Qed.
+
+(** summed = sum_dim(-2 * y_x_model + model_x_model, ...) for ANY set of summed axes: independent of y under the
+    mask and of the model where y is masked *)
+Lemma noise_summed_agree : forall d y y' model model',
+    wagree y y' ->
+    shape model = shape (value y) -> shape model' = shape model ->
+    (forall m, inr (shape model) m -> observed y m -> at_ model m = at_ model' m) ->
+    ragree teq (noise_summed d y model) (noise_summed d y' model').
+Proof.
+  intros d y y' model model' H Sm Sm' Hm. pose proof H as (W & W' & Hs & Hw & Hv).
+  unfold noise_summed, y_x_model.
+  pose proof (apply_same_shape_agree amul y y' model model' H Sm Sm' Hm) as H1.
+  destruct (apply_operation y (OT model) amul false) as [a|e] eqn:Ea;
+    destruct (apply_operation y' (OT model') amul false) as [a'|e'] eqn:Ea'; simpl in H1; try contradiction;
+    [|exact H1].
+  cbn [bind].
+  assert (B1 : bshape (shape (value y)) (shape model) = Some (shape (value y))) by (rewrite Sm; apply bshape_refl).
+  destruct (apply_plain_keeps y model amul false a W B1 Ea) as [Sa Wa].
+  pose proof H1 as (WA & _).
+  set (c := OT (scalar0 (Fin (-2 # 1)%Q))).
+  pose proof (apply_operation_agree amul true a a' c c H1 (teq_refl _ _)) as H2.
+  destruct (apply_operation a c amul true) as [b|e] eqn:Eb;
+    destruct (apply_operation a' c amul true) as [b'|e'] eqn:Eb'; simpl in H2; try contradiction;
+    [|exact H2].
+  cbn [bind].
+  destruct (apply_plain_keeps a (scalar0 (Fin (-2 # 1)%Q)) amul true b WA eq_refl Eb) as [Sb Wb].
+  assert (H3 : ragree wagree (apply_operation b (OT (model_x_model model)) aadd false)
+                             (apply_operation b' (OT (model_x_model model')) aadd false)).
+  { apply apply_same_shape_agree; [exact H2 | | exact Sm' |].
+    - simpl. now rewrite Sb, Sa.
+    - intros m Hin Ho. simpl. simpl in Hin. rewrite Hm; auto.
+      unfold observed in *. now rewrite Wb, Wa in Ho. }
+  eapply bind_ragree; [exact H3|]. intros t t' Ht. apply sum_dim_ignores_masked. exact Ht.
+Qed.
+
+Lemma noise_var_of_agree : forall p p' s s', pair_teq p p' -> teq s s' ->
+    ragree teq (noise_var_of p s) (noise_var_of p' s').
+Proof.
+  intros p p' s s' [Hp1 Hp2] Hs. unfold noise_var_of.
+  eapply bind_ragree; [apply tbin_teq; eassumption|]. intros n n' Hn.
+  apply tbin_teq; [exact Hn | now apply tmap_teq].
+Qed.
+
+(** C06, noise: BOTH update rules (scalar and per feature) use observed entries only.  If y changes under the mask
+    (ANY atoms there: NaN, infinities, huge) and the model tensor changes at entries where y is not observed,
+    the updated variance is the same (or the rule fails with the same error). *)
+Theorem noise_observed_only : forall y y' model model',
+    wagree y y' ->
+    shape model = shape (value y) -> shape model' = shape model ->
+    (forall m, inr (shape model) m -> observed y m -> at_ model m = at_ model' m) ->
+    ragree teq (noise_var_scalar y model) (noise_var_scalar y' model') /\
+    ragree teq (noise_var_diagonal y model) (noise_var_diagonal y' model').
+Proof.
+  intros y y' model model' H Sm Sm' Hm. split.
+  - unfold noise_var_scalar, y_L2_n_obs.
+    eapply bind_ragree.
+    { eapply bind_ragree; [apply sqr_agree, H|]. intros a b Hab. apply wsum_dim_ignores_masked, Hab. }
+    intros p p' Hp. eapply bind_ragree; [now apply noise_summed_agree|].
+    intros s s' Hs. now apply noise_var_of_agree.
+  - unfold noise_var_diagonal, y_L2_n_obs_per_ft.
+    eapply bind_ragree.
+    { eapply bind_ragree; [apply sqr_agree, H|]. intros a b Hab. apply wsum_dim_ignores_masked, Hab. }
+    intros p p' Hp. eapply bind_ragree; [now apply noise_summed_agree|].
+    intros s s' Hs. now apply noise_var_of_agree.
+Qed.
+
+(** the ingredients on their own (statistics stored in the state): y_L2 / n_obs, their per-feature twins and
+    y_x_model on observed positions *)
+Theorem noise_ingredients_observed_only : forall y y' model model',
+    wagree y y' ->
     shape model = shape (value y) -> shape model' = shape model ->
     (forall m, inr (shape model) m -> observed y m -> at_ model m = at_ model' m) ->
     ragree pair_teq (y_L2_n_obs_per_ft y) (y_L2_n_obs_per_ft y') /\
     ragree pair_teq (y_L2_n_obs y) (y_L2_n_obs y') /\
     ragree wagree (y_x_model y model) (y_x_model y' model').
 Proof.
-  intros y y' model model' H Hn Sm Sm' Hm. repeat split.
+  intros y y' model model' H Sm Sm' Hm. repeat split.
   - unfold y_L2_n_obs_per_ft. eapply bind_ragree; [apply sqr_agree, H|]. intros a b Hab.
     apply wsum_dim_ignores_masked, Hab.
   - unfold y_L2_n_obs. eapply bind_ragree; [apply sqr_agree, H|]. intros a b Hab.
